@@ -1,5 +1,11 @@
-(* Model of qvm/using.py (PrintUsingFormatter): the format-string scanner, the
-   field renderer and its use of Python's format() mini-language. *)
+(* Model of qvm/using.py (PrintUsingFormatter): the format-string scanner
+   (parse_format = parse_format_string + parse_numeric_format_string), the
+   field renderer (render_num = format_number, render = format) and the pieces
+   of Python's format() mini-language it uses ('{:}', '{:,}', '{:.Nf}',
+   '{:,.Nf}' on int and float).  Faithful to the code including its defects
+   (DESIGN.md D16, D24): compared on every run of ./check C19 with the real
+   class - scanner result, text and host exception (tools/props/c19.py).
+   The only addition is the ghost field o_frac, which the renderer never reads. *)
 From Coq Require Import ZArith List Bool Lia.
 From QV Require Import Sx Strs Fl Dec.
 Import ListNotations.
@@ -16,6 +22,9 @@ Record numopts := {
   o_comma : bool;
   o_decpt : option Z;                (* value of "sharps" when the dot was seen *)
   o_real : Z;
+  o_frac : Z;                        (* GHOST (not in the code, never read by the
+                                        renderer): number of '#' after the point;
+                                        used by the specification and the guard *)
 }.
 
 Inductive upart :=
@@ -27,22 +36,24 @@ Definition is_pm (c : Z) : bool := (c =? ch_plus) || (c =? ch_minus).
 
 (* parse_numeric_format_string's main loop, after the optional leading sign.
    Returns (chars consumed in the loop, sharps, options). *)
-Fixpoint num_loop (s : str) (lead_sign : bool) (n sharps real : Z)
+Fixpoint num_loop (s : str) (lead_sign : bool) (n sharps real frac : Z)
          (sign : option (bool * Z)) (comma : bool) (decpt : option Z)
   : Z * Z * numopts :=
-  let fin := (n, sharps, {| o_sign := sign; o_comma := comma; o_decpt := decpt; o_real := real |}) in
+  let mk sign := {| o_sign := sign; o_comma := comma; o_decpt := decpt;
+                    o_real := real; o_frac := frac |} in
+  let fin := (n, sharps, mk sign) in
   match s with
   | [] => fin
   | c :: r =>
-    if negb lead_sign && is_pm c then
-      (n + 1, sharps + 1,
-       {| o_sign := Some (true, c); o_comma := comma; o_decpt := decpt; o_real := real |})
-    else if c =? ch_hash then num_loop r lead_sign (n + 1) (sharps + 1) (real + 1) sign comma decpt
-    else if c =? ch_comma then num_loop r lead_sign (n + 1) (sharps + 1) real sign true decpt
+    if negb lead_sign && is_pm c then (n + 1, sharps + 1, mk (Some (true, c)))
+    else if c =? ch_hash then
+      num_loop r lead_sign (n + 1) (sharps + 1) (real + 1)
+               (match decpt with Some _ => frac + 1 | None => frac end) sign comma decpt
+    else if c =? ch_comma then num_loop r lead_sign (n + 1) (sharps + 1) real frac sign true decpt
     else if c =? ch_dot then
       match decpt with
       | Some _ => fin
-      | None => num_loop r lead_sign (n + 1) (sharps + 1) real sign comma (Some (sharps + 1))
+      | None => num_loop r lead_sign (n + 1) (sharps + 1) real frac sign comma (Some (sharps + 1))
       end
     else fin
   end.
@@ -50,9 +61,9 @@ Fixpoint num_loop (s : str) (lead_sign : bool) (n sharps real : Z)
 Definition parse_numeric (s : str) : Z * Z * numopts :=
   match s with
   | c :: r =>
-    if is_pm c then num_loop r true 1 1 0 (Some (false, c)) false None
-    else num_loop s false 0 0 0 None false None
-  | [] => num_loop s false 0 0 0 None false None
+    if is_pm c then num_loop r true 1 1 0 0 (Some (false, c)) false None
+    else num_loop s false 0 0 0 0 None false None
+  | [] => num_loop s false 0 0 0 0 None false None
   end.
 
 Fixpoint drop (n : nat) (s : str) : str :=
